@@ -205,12 +205,14 @@ Proof.
       replace ((p0 <? 194) || (244 <? p0)) with false by lia. cbv zeta.
       replace (p0 =? 240) with false by lia. replace (p0 =? 244) with false by lia.
       replace (p0 <? 224) with false by lia. replace (p0 <? 240) with true by lia. rewrite land15, !land63.
-      destruct (p0 =? 224), (p0 =? 237);
-        destruct (N.ltb_spec b1 160), (N.ltb_spec b1 128), (N.ltb_spec 191 b1), (N.ltb_spec 159 b1),
-                 (N.ltb_spec b2 128), (N.ltb_spec 191 b2); cbn [orb andb]; try lia;
-        repeat match goal with |- context [?x <=? ?y] =>
-                 first [replace (x <=? y) with true by lia | replace (x <=? y) with false by lia] end;
-        reflexivity. }
+      destruct (N.eqb_spec p0 224) as [E224|E224]; [|destruct (N.eqb_spec p0 237) as [E237|E237]];
+        [replace (p0 =? 237) with false by lia| |];
+        (destruct ((b1 <? _) || (_ <? b1)) eqn:E1;
+         [replace ((_ <=? b1) && (b1 <=? _)) with false by lia; reflexivity|];
+         replace ((_ <=? b1) && (b1 <=? _)) with true by lia;
+         destruct ((b2 <? 128) || (191 <? b2)) eqn:E2;
+         [replace ((128 <=? b2) && (b2 <=? 191)) with false by lia; reflexivity|];
+         replace ((128 <=? b2) && (b2 <=? 191)) with true by lia; reflexivity). }
     rewrite Hd. destruct (r3 p0 b1 && cont b2) eqn:Ec; cbn [fst snd]; [|rewrite andb_false_l; reflexivity].
     rewrite IH by lia. cbn [dropN N.eqb N.pred Pos.pred_N Pos.pred_double]. rewrite dropN_0.
     assert (Hrange : 128 <= b1 <= 191 /\ 128 <= b2 <= 191 /\ (p0 = 224 -> 160 <= b1) /\ (p0 = 237 -> b1 <= 159)).
@@ -241,12 +243,17 @@ Proof.
       replace ((p0 <? 194) || (244 <? p0)) with false by lia. cbv zeta.
       replace (p0 =? 224) with false by lia. replace (p0 =? 237) with false by lia.
       replace (p0 <? 224) with false by lia. replace (p0 <? 240) with false by lia. rewrite land7, !land63.
-      destruct (p0 =? 240), (p0 =? 244);
-        destruct (N.ltb_spec b1 144), (N.ltb_spec b1 128), (N.ltb_spec 191 b1), (N.ltb_spec 143 b1),
-                 (N.ltb_spec b2 128), (N.ltb_spec 191 b2), (N.ltb_spec b3 128), (N.ltb_spec 191 b3); cbn [orb andb]; try lia;
-        repeat match goal with |- context [?x <=? ?y] =>
-                 first [replace (x <=? y) with true by lia | replace (x <=? y) with false by lia] end;
-        reflexivity. }
+      destruct (N.eqb_spec p0 240) as [E240|E240]; [|destruct (N.eqb_spec p0 244) as [E244|E244]];
+        [replace (p0 =? 244) with false by lia| |];
+        (destruct ((b1 <? _) || (_ <? b1)) eqn:E1;
+         [replace ((_ <=? b1) && (b1 <=? _)) with false by lia; reflexivity|];
+         replace ((_ <=? b1) && (b1 <=? _)) with true by lia;
+         destruct ((b2 <? 128) || (191 <? b2)) eqn:E2;
+         [replace ((128 <=? b2) && (b2 <=? 191)) with false by lia; reflexivity|];
+         replace ((128 <=? b2) && (b2 <=? 191)) with true by lia;
+         destruct ((b3 <? 128) || (191 <? b3)) eqn:E3;
+         [replace ((128 <=? b3) && (b3 <=? 191)) with false by lia; reflexivity|];
+         replace ((128 <=? b3) && (b3 <=? 191)) with true by lia; reflexivity). }
     rewrite Hd. destruct (r4 p0 b1 && cont b2 && cont b3) eqn:Ec; cbn [fst snd]; [|reflexivity].
     rewrite IH by lia. cbn [dropN N.eqb N.pred Pos.pred_N Pos.pred_double]. rewrite dropN_0.
     assert (Hrange : 128 <= b1 <= 191 /\ 128 <= b2 <= 191 /\ 128 <= b3 <= 191 /\ (p0 = 240 -> 144 <= b1) /\ (p0 = 244 -> b1 <= 143)).
